@@ -350,6 +350,11 @@ Proof.
 Qed.
 End Forms.
 
+(** the derived word, stated on [mod_neg_inv_of] (never let conversion unfold the 64-step loop) *)
+Lemma mod_neg_inv_of_ok m : Z.odd (hd 0 m) = true -> is_word (hd 0 m) ->
+  is_word (mod_neg_inv_of m) /\ (hd 0 m * mod_neg_inv_of m + 1) mod B = 0.
+Proof. intros Ho Hh. unfold mod_neg_inv_of. apply mod_neg_inv_of_correct; assumption. Qed.
+
 (** the parameter sets of the constructors equal their definitions *)
 Theorem params_fixed_correct m : wf m -> length m <> 0%nat -> Z.odd (eval m) = true ->
   let n := length m in let N := Bn n in let M := eval m in
@@ -360,15 +365,15 @@ Theorem params_fixed_correct m : wf m -> length m <> 0%nat -> Z.odd (eval m) = t
 Proof.
   intros Hm Hn Hodd. cbv zeta. unfold params_fixed.
   pose proof (wf_hd m Hm) as Hh. pose proof (hd_odd m Hm) as Ho. rewrite Hodd in Ho.
-  destruct (mod_neg_inv_of_correct (hd 0 m) Ho Hh) as (Hkw & Hk). fold (mod_neg_inv_of m) in Hk, Hkw.
+  destruct (mod_neg_inv_of_ok m Ho Hh) as (Hkw & Hk).
   destruct (params_one_correct m Hm Hn Hodd) as (C1 & E1).
   destruct (params_r2_correct m Hm Hn Hodd (params_one m) E1) as (C2 & E2).
   pose proof C2 as (W2 & L2 & B2).
   destruct (fixed_square_canon m (mod_neg_inv_of m) Hm Hn Hk (params_r2 (params_one m) m) W2 L2) as (C3 & E3).
-  { apply (prod_lt m Hm Hn Hodd); [exact B2|]. pose proof (M_lt_N m Hm). lia. }
+  { apply (prod_lt m Hm Hn Hodd); [exact B2|]. pose proof (M_lt_N m Hm Hn). lia. }
   cbn [mp_k]. split; [|exact Hk]. f_equal.
-  - destruct C1 as (W1 & L1 & B1). apply (limbs_of_value m Hm); assumption.
-  - apply (limbs_of_value m Hm); try assumption.
+  - destruct C1 as (W1 & L1 & B1). apply (limbs_of_value m Hm); try assumption. rewrite <- E1. exact B1.
+  - apply (limbs_of_value m Hm); try assumption. rewrite <- E2. exact B2.
   - apply (r3_value m Hm Hn Hodd _ (params_r2 (params_one m) m)); assumption.
   - unfold mod_neg_inv_of. rewrite <- (hd_eval_mod m Hm). apply neg_inv_model_eq_spec; assumption.
   - unfold mod_leading_zeros_of, lenZ. destruct (_ <? 63) eqn:E; [apply Z.ltb_lt in E | apply Z.ltb_ge in E]; lia.
@@ -383,16 +388,16 @@ Theorem params_boxed_correct m : wf m -> length m <> 0%nat -> Z.odd (eval m) = t
 Proof.
   intros Hm Hn Hodd. cbv zeta. unfold params_boxed.
   pose proof (wf_hd m Hm) as Hh. pose proof (hd_odd m Hm) as Ho. rewrite Hodd in Ho.
-  destruct (mod_neg_inv_of_correct (hd 0 m) Ho Hh) as (Hkw & Hk). fold (mod_neg_inv_of m) in Hk, Hkw.
+  destruct (mod_neg_inv_of_ok m Ho Hh) as (Hkw & Hk).
   destruct (params_one_correct m Hm Hn Hodd) as (C1 & E1).
   destruct (params_r2_correct m Hm Hn Hodd (params_one m) E1) as (C2 & E2).
-  pose proof C2 as (W2 & L2 & B2). pose proof (M_pos m Hm Hodd) as HM.
+  pose proof C2 as (W2 & L2 & B2). pose proof (M_pos m Hm Hn Hodd) as HM.
   set (r2 := params_r2 (params_one m) m) in *.
   change (boxed_monty_square r2 m (mod_neg_inv_of m)) with (boxed_monty_mul r2 r2 m (mod_neg_inv_of m)).
   destruct (boxed_monty_mul_correct m (mod_neg_inv_of m) Hm Hn Hk r2 r2 W2 W2 L2 L2 HM ltac:(left; lia)) as (W3 & L3 & B3 & E3).
   cbn [mp_k]. split; [|exact Hk]. f_equal.
-  - destruct C1 as (W1 & L1 & B1). apply (limbs_of_value m Hm); assumption.
-  - apply (limbs_of_value m Hm); try assumption.
+  - destruct C1 as (W1 & L1 & B1). apply (limbs_of_value m Hm); try assumption. rewrite <- E1. exact B1.
+  - apply (limbs_of_value m Hm); try assumption. rewrite <- E2. exact B2.
   - apply (r3_value m Hm Hn Hodd _ r2); try assumption. split; [assumption | split; assumption].
   - unfold mod_neg_inv_of. rewrite <- (hd_eval_mod m Hm). apply neg_inv_model_eq_spec; assumption.
   - unfold mod_leading_zeros_of, lenZ. destruct (_ <? 63) eqn:E; [apply Z.ltb_lt in E | apply Z.ltb_ge in E]; lia.
@@ -402,4 +407,7 @@ Qed.
 Theorem params_one_head_refuted :
   exists m, wf m /\ Z.odd (eval m) = true /\ eval (params_one_head m) <> Bn (length m) mod eval m
             /\ ~ eval (params_one_head m) < eval m.
-Proof. exists [1]. split; [repeat constructor; vm_compute; split; congruence|]. vm_compute. repeat split; congruence. Qed.
+Proof.
+  exists [1]. split; [constructor; [unfold is_word; rewrite B_val; lia | constructor]|].
+  split; [reflexivity|]. split; vm_compute; intro H; discriminate H.
+Qed.
